@@ -344,6 +344,10 @@ fn run_one(run: u64, seed: u64) -> (Vec<J>, J) {
     let nthreads = p.scripts.len();
     let barrier = Arc::new(Barrier::new(nthreads + 1));
     let done = Arc::new(AtomicUsize::new(0));
+    // batches finished so far, over all updaters: the reader spreads its readouts over this progress
+    // (on a loaded machine it would otherwise use them up before the updaters are even scheduled)
+    let progress = Arc::new(AtomicUsize::new(0));
+    let total_batches: usize = p.scripts.iter().map(|s| s.len()).sum();
     let panicked = Arc::new(AtomicBool::new(false));
     let mut handles = Vec::new();
     let mut total_updates = 0u64;
@@ -358,6 +362,7 @@ fn run_one(run: u64, seed: u64) -> (Vec<J>, J) {
         let keys = keys.clone();
         let barrier = barrier.clone();
         let done = done.clone();
+        let progress = progress.clone();
         let panicked = panicked.clone();
         handles.push(std::thread::spawn(move || {
             barrier.wait();
@@ -388,6 +393,7 @@ fn run_one(run: u64, seed: u64) -> (Vec<J>, J) {
                                 trace::ev(json!({"ev": "DescEnd", "name": kd.name, "unit": UNITS[*unit].1}));
                             }
                         }
+                        progress.fetch_add(1, Ordering::SeqCst);
                     }
                 })
             });
@@ -402,13 +408,15 @@ fn run_one(run: u64, seed: u64) -> (Vec<J>, J) {
         let rec = rec.clone();
         let barrier = barrier.clone();
         let done = done.clone();
+        let progress = progress.clone();
         let (pace, max_readouts) = (p.pace, p.max_readouts);
         let mut r = util::rng(seed ^ 0x5eed);
         std::thread::spawn(move || {
             barrier.wait();
             let mut n = 0u32;
             while done.load(Ordering::SeqCst) < nthreads {
-                if n < max_readouts {
+                let allowed = ((progress.load(Ordering::SeqCst) + 1) * max_readouts as usize).div_ceil(total_batches.max(1));
+                if (n as usize) < allowed.min(max_readouts as usize) {
                     readout(&rec, false);
                     n += 1;
                     let spins = if pace == 0 { 0 } else { r.random_range(0..pace) };
@@ -416,7 +424,7 @@ fn run_one(run: u64, seed: u64) -> (Vec<J>, J) {
                         std::hint::spin_loop();
                     }
                 } else {
-                    std::thread::sleep(std::time::Duration::from_micros(50));
+                    std::thread::yield_now();
                 }
             }
             n
